@@ -360,7 +360,8 @@ func (m *c02m) exec(s *stmt, fn string) compl {
 			// __exit__ raises ValueError: it replaces whatever was pending. Raised inside
 			// __exit__ (function "__exit__"), propagating through the with statement's line.
 			return compl{kind: "raise", exc: &excObj{typ: "ValueError", tb: []tbEntry{{fn, s.line}, {"__exit__", -1}}, reraiseLines: map[tbEntry]bool{}}}
-		case "true":
+		case "true", "one":
+			// any true value returned by __exit__ silences the exception
 			if c.kind == "raise" {
 				return compl{} // swallowed
 			}
@@ -388,8 +389,16 @@ type c02gen struct {
 	rc       *core.RunCtx
 	maxDepth int
 	excs     []string
-	hspecs   [][]handlerSpec
-	withCall bool
+	hspecs    [][]handlerSpec
+	withCall  bool
+	moreModes bool // also __exit__ returning 1, 0 and None
+}
+
+func (g *c02gen) withModes() []string {
+	if g.moreModes {
+		return []string{"false", "true", "raise", "one", "zero", "none"}
+	}
+	return []string{"false", "true", "raise"}
 }
 
 type handlerSpec struct {
@@ -432,7 +441,7 @@ func (g *c02gen) stmts(budget, depth int, k func(s *stmt, used int)) {
 		})
 	}
 	// with
-	for _, mode := range []string{"false", "true", "raise"} {
+	for _, mode := range g.withModes() {
 		g.blocks(budget-1, depth+1, func(b []*stmt, u int) {
 			k(&stmt{k: sWith, mode: mode, body: b}, u+1)
 		})
@@ -538,6 +547,12 @@ class CM:
             vh.log(('exit', self.n, name))
         if self.mode == "raise":
             raise ValueError
+        if self.mode == "one":
+            return 1
+        if self.mode == "zero":
+            return 0
+        if self.mode == "none":
+            return None
         return self.mode == "true"
 `
 
@@ -583,7 +598,7 @@ func c02Run(rc *core.RunCtx) {
 	}
 	for pi, pl := range plans {
 		rc.Part = fmt.Sprintf("plan%d", pi)
-		g := &c02gen{rc: rc, maxDepth: pl.depth, excs: pl.excs, hspecs: pl.hspecs, withCall: pl.call}
+		g := &c02gen{rc: rc, maxDepth: pl.depth, excs: pl.excs, hspecs: pl.hspecs, withCall: pl.call, moreModes: pi == 0}
 		g.blocks(pl.budget, 0, func(b []*stmt, used int) {
 			if rc.Expired() || rc.Done() {
 				return
